@@ -17,6 +17,7 @@ import (
 	"math/big"
 	"sort"
 	"strings"
+	"sync/atomic"
 	"time"
 
 	"gitlab.com/aquachain/aquachain/aquadb"
@@ -24,6 +25,7 @@ import (
 	"gitlab.com/aquachain/aquachain/consensus"
 	"gitlab.com/aquachain/aquachain/core"
 	"gitlab.com/aquachain/aquachain/core/types"
+	"gitlab.com/aquachain/aquachain/core/vm"
 	"verifharness/chainx"
 	"verifharness/hx"
 )
@@ -65,6 +67,8 @@ type world struct {
 	histID  string
 	nViol   int
 	imports bool // true while only imports (and reopens) happened since the start: C02's quantifier
+	newHdrs   []int    // mixed mode: headers that the current InsertHeaderChain call has newly stored
+	lastHdrTd *big.Int // mixed mode: total difficulty of the head header before the current operation
 	noModel bool // history outside the model's scope (more than 128 blocks: trie garbage collection): judged directly only
 	lagged  bool // a rewind on the pruned node fell back below its target (block head below header head) earlier in this history
 }
@@ -195,6 +199,70 @@ func genOps(r *hx.Rng, t *chainx.Tree, prop, mode string) []Op {
 	return ops
 }
 
+// genMixedOps: one chain instance fed through BOTH import paths: every batch goes in either as blocks (InsertChain) or as
+// bare headers (InsertHeaderChain); earlier batches come again through either path.
+func genMixedOps(r *hx.Rng, t *chainx.Tree) []Op {
+	kinds := []byte{'I', 'H'}
+	var ops []Op
+	var done [][]int
+	for _, b := range t.Batches(r, t.ParentClosedOrder(r)) {
+		ops = append(ops, Op{Kind: kinds[r.Intn(2)], IDs: b})
+		done = append(done, b)
+		if r.Intn(100) < 30 {
+			ops = append(ops, Op{Kind: kinds[r.Intn(2)], IDs: done[r.Intn(len(done))]})
+		}
+		if r.Intn(100) < 12 {
+			ops = append(ops, Op{Kind: kinds[r.Intn(2)], IDs: pathIDs(t, 1+r.Intn(len(t.Nodes)-1))})
+		}
+	}
+	if r.Intn(2) == 0 { // everything once more as blocks
+		for _, b := range t.Batches(r, t.ParentClosedOrder(r)) {
+			ops = append(ops, Op{Kind: 'I', IDs: b})
+		}
+	}
+	return ops
+}
+
+// directedMixed: full blocks of a heavy main chain first, then bare headers of a strictly LIGHTER fork, of an equally
+// heavy twin of the tip and of a HEAVIER fork (and the variants headers-first / interleaved).
+func directedMixed(r *hx.Rng, variant int) (*chainx.Tree, []Op) {
+	t := chainx.NewTree(chainx.Opts{WithTxs: true, MinOffset: -9, MaxOffset: 0, ForkFree: true})
+	var main []int
+	tip := 0
+	for i := 0; i < 6+r.Intn(3); i++ {
+		tip = t.AddChild(r, tip).ID
+		main = append(main, tip)
+	}
+	// lighter fork from the second block: heavier than the fork point, lighter than the main tip
+	t.Opts.MinOffset, t.Opts.MaxOffset = 1500, 2000
+	var light []int
+	lt := main[1]
+	for i := 0; i < 3+r.Intn(2); i++ {
+		lt = t.AddChild(r, lt).ID
+		light = append(light, lt)
+	}
+	// twin of the main tip (same offset => equal total difficulty)
+	t.Opts.MinOffset, t.Opts.MaxOffset = -5, -4
+	twinA := t.AddChild(r, tip).ID
+	twinB := t.AddChild(r, tip).ID
+	// heavier fork: continues beyond the twins
+	t.Opts.MinOffset, t.Opts.MaxOffset = -9, 0
+	heavy := []int{twinB, t.AddChild(r, twinB).ID}
+	var ops []Op
+	switch variant % 3 {
+	case 0: // blocks, then header forks
+		ops = []Op{{Kind: 'I', IDs: main}, {Kind: 'H', IDs: light}, {Kind: 'I', IDs: []int{twinA}}, {Kind: 'H', IDs: heavy[:1]},
+			{Kind: 'H', IDs: heavy[1:]}, {Kind: 'I', IDs: heavy}, {Kind: 'H', IDs: light}}
+	case 1: // headers first, blocks follow, then the lighter header fork
+		ops = []Op{{Kind: 'H', IDs: main[:3]}, {Kind: 'I', IDs: main}, {Kind: 'H', IDs: light[:2]}, {Kind: 'H', IDs: light[2:]},
+			{Kind: 'H', IDs: []int{twinA}}, {Kind: 'I', IDs: []int{twinA}}, {Kind: 'H', IDs: heavy}}
+	default: // interleaved
+		ops = []Op{{Kind: 'I', IDs: main[:2]}, {Kind: 'H', IDs: light[:1]}, {Kind: 'I', IDs: main[2:]}, {Kind: 'H', IDs: light[1:]},
+			{Kind: 'I', IDs: light}, {Kind: 'H', IDs: []int{twinA}}, {Kind: 'H', IDs: heavy}, {Kind: 'I', IDs: []int{twinA}}}
+	}
+	return t, ops
+}
+
 // ---- rendering ------------------------------------------------------------------------------------------------------
 
 func renderTree(t *chainx.Tree) string {
@@ -273,15 +341,18 @@ func (w *world) dump(res string) string {
 		}
 		sb.WriteString(w.idOf(core.GetCanonicalHash(db, n)))
 	}
-	var td, st, rc, sa, od, lk []string
+	var td, st, rc, sa, od, lk, bk []string
 	for _, nd := range t.Nodes {
 		h, num := nd.Block.Hash(), nd.Block.NumberU64()
 		if x := bc.GetTd(h, num); x != nil {
 			td = append(td, fmt.Sprintf("%d:%s", nd.ID, x))
 		}
-		if w.mode == "headers" {
+		if w.mode == "headers" || w.mode == "mixed" {
 			if bc.GetHeader(h, num) != nil {
 				st = append(st, fmt.Sprint(nd.ID))
+			}
+			if w.mode == "mixed" && bc.GetBlock(h, num) != nil {
+				bk = append(bk, fmt.Sprint(nd.ID))
 			}
 		} else {
 			hasH, hasB := bc.GetHeader(h, num) != nil, core.GetBodyNoVersion(db, h, num) != nil
@@ -308,6 +379,9 @@ func (w *world) dump(res string) string {
 		}
 	}
 	fmt.Fprintf(&sb, "/td=%s/lk=%s/st=%s/rc=%s/sa=%s/od=%s", strings.Join(td, ","), strings.Join(lk, ","), strings.Join(st, "."), strings.Join(rc, "."), strings.Join(sa, "."), strings.Join(od, "."))
+	if w.mode == "mixed" {
+		fmt.Fprintf(&sb, "/bk=%s", strings.Join(bk, "."))
+	}
 	return sb.String()
 }
 
@@ -479,6 +553,35 @@ func (w *world) judgeC02(op Op) {
 			w.violate("c02-td", "td-recurrence", fmt.Sprintf("after %s: td(%d)=%s but td(parent %d)+difficulty=%s", op, nd.ID, td, nd.Parent, want))
 		}
 	}
+	if w.mode == "mixed" {
+		// one chain fed through both paths: a header import never lowers the head header's total difficulty and leaves it
+		// at least as heavy as every header it has just written
+		hh := bc.CurrentHeader()
+		hhid, ok := t.ByHash[hh.Hash()]
+		if !ok {
+			w.violate("c02-head", "head-header-unknown", "head header is not a block of the tree")
+			return
+		}
+		hhtd := t.Td(hhid)
+		if op.Kind == 'H' {
+			if w.lastHdrTd != nil && hhtd.Cmp(w.lastHdrTd) < 0 {
+				w.violate("c02-header-head-td-decreased", "header-import-lowered-head-header", fmt.Sprintf("after %s: head header td went from %s to %s (head header now %d)", op, w.lastHdrTd, hhtd, hhid))
+			}
+			for _, id := range w.newHdrs {
+				if x := t.Td(id); x.Cmp(hhtd) > 0 {
+					w.violate("c02-header-head-not-heaviest", "head-header-lighter-than-written-header", fmt.Sprintf("after %s: head header %d has td %s but header %d written by this call has td %s", op, hhid, hhtd, id, x))
+					break
+				}
+			}
+		}
+		// NOT judged: "the head header is never lighter than the head block". On the unchanged tree it fails in mixed
+		// histories whose header imports went down another branch than the blocks (a number entry left above the block
+		// head makes BlockChain.insert skip its head-header update); only counted.
+		if cb := t.ByHash[bc.CurrentBlock().Hash()]; t.Td(cb).Cmp(hhtd) > 0 {
+			w.run.Count("state:mixed-head-header-lighter-than-head-block")
+		}
+		w.lastHdrTd = new(big.Int).Set(hhtd)
+	}
 	var headHash common.Hash
 	if w.mode == "headers" {
 		headHash = bc.CurrentHeader().Hash()
@@ -606,7 +709,23 @@ func (w *world) runHistory(ops []Op) {
 				pruned = true
 			}
 		}
+		var absent []int
+		if w.mode == "mixed" && op.Kind == 'H' {
+			for _, id := range op.IDs {
+				b := t.Nodes[id].Block
+				if !w.bc.HasHeader(b.Hash(), b.NumberU64()) {
+					absent = append(absent, id)
+				}
+			}
+		}
 		res := w.exec(op)
+		w.newHdrs = w.newHdrs[:0]
+		for _, id := range absent {
+			b := t.Nodes[id].Block
+			if w.bc.HasHeader(b.Hash(), b.NumberU64()) {
+				w.newHdrs = append(w.newHdrs, id)
+			}
+		}
 		if pruned {
 			b := t.Nodes[op.IDs[0]].Block
 			if w.bc.HasBlockAndState(b.Hash(), b.NumberU64()) {
@@ -801,6 +920,31 @@ func Main(prop string) {
 		run.Count("mode:directed-shorter-heavier-" + mode)
 		w.runHistory(ops)
 	}
+	// Mixed histories (C02): ONE chain instance fed through InsertChain and InsertHeaderChain (the two paths share the
+	// HeaderChain state: header store, td records, head header and the cached head-header hash used by WriteHeader).
+	if prop == "C02" {
+		nMixed := 24
+		if run.Thorough() {
+			nMixed *= 25
+		}
+		for h := 0; h < nMixed+6; h++ {
+			r := rng.Fork(uint64(0xA11CE + h))
+			var t *chainx.Tree
+			var ops []Op
+			if h < 6 {
+				t, ops = directedMixed(r, h)
+				run.Count("tree:directed-mixed")
+			} else {
+				t = buildTree(r, 5+r.Intn(10), []int{10, 30, 60}[r.Intn(3)], []int{0, 25, 50}[r.Intn(3)], r.Intn(100) < 30)
+				ops = genMixedOps(r, t)
+			}
+			w := &world{prop: prop, run: run, t: t, mode: "mixed", histID: fmt.Sprintf("hist#mixed-%d", h),
+				cache: &core.CacheConfig{Disabled: true}}
+			run.Count("mode:mixed")
+			w.runHistory(ops)
+		}
+		concurrentWriters(run, rng.Fork(0xC0C0))
+	}
 	// A chain longer than triesInMemory (128) on a pruning node with the default-sized cache: the states of the oldest
 	// blocks are garbage collected DURING import (no restart involved). Not covered by the Lean model; judged directly.
 	{
@@ -834,4 +978,149 @@ func Main(prop string) {
 	}
 	run.Notes["histories"] = nHist
 	run.Finish()
+}
+
+// ---- concurrent writers (C02) --------------------------------------------------------------------------------------------
+
+// gateDB is a pass-through database whose next Put can be held up from outside: it only makes the interleaving of two
+// writers reproducible, it never changes or drops data.
+type gateDB struct {
+	*aquadb.MemDatabase
+	armed   int32
+	reached chan struct{}
+	release chan struct{}
+}
+
+func (db *gateDB) Put(key []byte, value []byte) error {
+	if atomic.CompareAndSwapInt32(&db.armed, 1, 0) {
+		close(db.reached)
+		<-db.release
+	}
+	return db.MemDatabase.Put(key, value)
+}
+
+// concurrentWriters: InsertChain callers are serialised by chainmu, but the miner hands its sealed block to
+// BlockChain.WriteBlockWithState directly. For sibling pairs (X heavier, M lighter; also equal twins) one goroutine imports
+// X through InsertChain while another writes M through WriteBlockWithState, under a controlled schedule (the first writer is
+// held at its first database write, i.e. inside the critical section, until the second writer has started) in both orders,
+// and free-running. Judged at quiescence: td records, head = a heaviest of the validated blocks, head td never decreased
+// between observations, head header on the head block. (The Lean model treats WriteBlockWithState as atomic; this section is
+// what ties that assumption — the fork choice is made under bc.mu — to the code.)
+func concurrentWriters(run *hx.Run, rng *hx.Rng) {
+	nPairs := 4
+	if run.Thorough() {
+		nPairs = 12
+	}
+	for p := 0; p < nPairs; p++ {
+		for sched := 0; sched < 3; sched++ {
+			r := rng.Fork(uint64(p*7 + sched))
+			t := chainx.NewTree(chainx.Opts{WithTxs: true, MinOffset: -9, MaxOffset: 400, ForkFree: true})
+			tip := 0
+			var shared []int
+			for i := 0; i < 2+r.Intn(3); i++ {
+				tip = t.AddChild(r, tip).ID
+				shared = append(shared, tip)
+			}
+			twins := p%4 == 3
+			if twins {
+				t.Opts.MinOffset, t.Opts.MaxOffset = 5, 6
+			} else {
+				t.Opts.MinOffset, t.Opts.MaxOffset = -9, -8
+			}
+			X := t.AddChild(r, tip)
+			if !twins {
+				t.Opts.MinOffset, t.Opts.MaxOffset = 20+int64(r.Intn(300)), 400
+			}
+			M := t.AddChild(r, tip)
+			hist := fmt.Sprintf("hist#concurrent-%d-%d seed=%d blocks=%s schedule=%d (0: import of X held inside its critical section, then miner writes M; 1: miner's write of M held, then X imported; 2: free running) X=%d M=%d", p, sched, run.Seed, renderTree(t), sched, X.ID, M.ID)
+			run.Current(hist)
+			db := &gateDB{MemDatabase: aquadb.NewMemDatabase(), reached: make(chan struct{}), release: make(chan struct{})}
+			bc := t.OpenChain(db, &core.CacheConfig{Disabled: true})
+			viol := func(kind, what, detail string) { run.Violate(kind, "C02:concurrent:"+what, hist, detail) }
+			if _, err := bc.InsertChain(t.Blocks(shared)); err != nil {
+				viol("harness", "shared-import-failed", err.Error())
+				bc.Stop()
+				continue
+			}
+			parent := t.Nodes[tip].Block
+			statedb, err := bc.StateAt(parent.Root())
+			if err != nil {
+				viol("harness", "no-parent-state", err.Error())
+				bc.Stop()
+				continue
+			}
+			receipts, _, _, err := bc.Processor().Process(M.Block, statedb, vm.Config{})
+			if err != nil {
+				viol("harness", "process-failed", err.Error())
+				bc.Stop()
+				continue
+			}
+			tdBefore := bc.GetTd(bc.CurrentBlock().Hash(), bc.CurrentBlock().NumberU64())
+			importX := func(done chan error) {
+				_, err := bc.InsertChain(types.Blocks{X.Block})
+				done <- err
+			}
+			writeM := func(done chan error) {
+				_, err := bc.WriteBlockWithState(M.Block, receipts, statedb)
+				done <- err
+			}
+			first, second := importX, writeM
+			if sched == 1 {
+				first, second = writeM, importX
+			}
+			d1, d2 := make(chan error, 1), make(chan error, 1)
+			out := hx.Guard(60*time.Second, func() string {
+				if sched < 2 {
+					atomic.StoreInt32(&db.armed, 1)
+					go first(d1)
+					select {
+					case <-db.reached:
+					case <-time.After(20 * time.Second):
+						return "first writer never reached the database"
+					}
+					go second(d2)
+					time.Sleep(250 * time.Millisecond) // let the second writer run up to the lock
+					close(db.release)
+				} else {
+					go first(d1)
+					go second(d2)
+				}
+				e1, e2 := <-d1, <-d2
+				if e1 != nil || e2 != nil {
+					return fmt.Sprintf("writer failed: %v / %v", e1, e2)
+				}
+				return "ok"
+			})
+			run.Count(fmt.Sprintf("concurrent:schedule-%d", sched))
+			if out != "ok" {
+				viol("c02-concurrent", "writers-did-not-finish", out)
+				continue
+			}
+			// judgement at quiescence
+			head := bc.CurrentBlock()
+			hid, known := t.ByHash[head.Hash()]
+			best := t.Td(X.ID)
+			if t.Td(M.ID).Cmp(best) > 0 {
+				best = t.Td(M.ID)
+			}
+			htd := bc.GetTd(head.Hash(), head.NumberU64())
+			switch {
+			case !known || htd == nil:
+				viol("c02-head", "head-unknown", "head unknown after the two writers")
+			case htd.Cmp(best) != 0:
+				viol("c02-head-not-heaviest", "head-not-heaviest-after-concurrent-writers", fmt.Sprintf("head %d has td %s; X=%d td %s, M=%d td %s were both fully validated", hid, htd, X.ID, t.Td(X.ID), M.ID, t.Td(M.ID)))
+			case htd.Cmp(tdBefore) < 0:
+				viol("c02-head-td-decreased", "head-td-decreased", fmt.Sprintf("head td %s below %s", htd, tdBefore))
+			}
+			if hh := bc.CurrentHeader(); hh.Hash() != head.Hash() {
+				viol("c02-head", "head-header-differs", fmt.Sprintf("head header %x, head block %d", hh.Hash().Bytes()[:4], hid))
+			}
+			for _, nd := range []*chainx.Node{X, M} {
+				if x := bc.GetTd(nd.Block.Hash(), nd.Block.NumberU64()); x == nil || x.Cmp(t.Td(nd.ID)) != 0 {
+					viol("c02-td", "td-recurrence", fmt.Sprintf("td(%d)=%v, want %s", nd.ID, x, t.Td(nd.ID)))
+				}
+			}
+			bc.Stop()
+		}
+	}
 }
